@@ -102,7 +102,7 @@ Fixpoint impl_lex (vcmp : value -> value -> comparison) (dirs : list bool) (a b 
   | asc :: ds =>
       match vcmp (hd VNull a) (hd VNull b) with
       | Eq => impl_lex vcmp ds (tl a) (tl b)
-      | c => if asc then c else c
+      | c => if asc then c else CompOpp c
       end
   end.
 Definition impl_elt_cmp (dirs : list bool) (a b : elt) : comparison :=
